@@ -112,9 +112,9 @@ def audit():
         r = subprocess.run(['lake', 'env', 'lean', gen_path], cwd=LEAN, capture_output=True, text=True)
         out = r.stdout + r.stderr
         ax = {}
-        for m in re.finditer(r"'([^']+)' depends on axioms: \[([^\]]*)\]", out, flags=re.S):
+        for m in re.finditer(r"'(\S+)' depends on axioms: \[([^\]]*)\]", out, flags=re.S):
             ax[m.group(1)] = [a.strip() for a in m.group(2).replace('\n', ' ').split(',') if a.strip()]
-        for m in re.finditer(r"'([^']+)' does not depend on any axioms", out):
+        for m in re.finditer(r"'(\S+)' does not depend on any axioms", out):
             ax[m.group(1)] = []
         errors = [l for l in out.split('\n') if 'error' in l.lower()]
         json.dump(dict(hash=h, axioms=ax, errors=errors), open(cache, 'w'))
